@@ -4,6 +4,7 @@
   pairwise different by expanded name, every prefix used bound, the end tag spelled like the start
   tag, no two neighbouring character runs.
 -/
+import XotModel.Lemmas.ParseQName
 import XotModel.Lemmas.RoundTripDenote
 
 namespace XotModel
@@ -72,7 +73,7 @@ theorem spellItems_well (he : EnvFacts env) {s' : FStack} {fs : Frames} {sc : Sc
     fun a ha' => attrs_valueOK env hn ha'
   have hp := attrTokens_prefixes _ ats ha
   obtain ⟨hdo, hao, hor⟩ := spellItems_facts he hrel inScope (Tree.node (.element name) ks) hdecls hv hp
-  refine ⟨spellItems_pieces inScope false s' _, ?_, ?_, ?_, ?_⟩
+  refine ⟨spellItems_pieces inScope false s' _, ?_, ?_, ?_, ?_, ?_⟩
   · rw [hdo]; exact hdecls.not_reserved he
   · rw [hdo]; exact hdecls.keys_nodup he
   · rw [hao]; exact attrs_expanded_nodup he hn (attrTokens_ns_lt he hrel ha)
@@ -81,6 +82,15 @@ theorem spellItems_well (he : EnvFacts env) {s' : FStack} {fs : Frames} {sc : Sc
     obtain ⟨x, hx, rfl⟩ := List.mem_map.mp ha'
     obtain ⟨q, hq⟩ := hp x hx
     exact (spellAttr_facts he hrel (hv x hx) hq).2.2.2 hne
+  · -- every position of the serialiser-side spelling is 0
+    intro a ha'
+    simp only [spellItems, List.mem_append, List.mem_flatMap, List.mem_map] at ha'
+    rcases ha' with ⟨d, _, hd⟩ | ⟨x, _, rfl⟩
+    · unfold spellDecl at hd
+      split at hd
+      · simp at hd
+      · split at hd <;> simp only [List.mem_singleton] at hd <;> subst hd <;> exact StrSpan.bareColon_zero _
+    · exact StrSpan.bareColon_zero _
 
 /-! ### No two neighbouring character runs -/
 
@@ -224,11 +234,12 @@ theorem spellNode_well (he : EnvFacts env) (inScope : List (Nat × Nat)) (n : Tr
       simp only [spellNode, hp, okPrefix]
       by_cases hfc : (Tree.node (.element name) ks).firstChild?.isNone = true
       · simp only [hfc, if_true, spellKids_empty hn hfc, NSNode.Well.wellList, NSNode.Well, hdo, sp0, and_true]
-        exact ⟨hitems, hsome⟩
+        exact ⟨hitems, hsome, StrSpan.bareColon_zero _⟩
       · simp only [hfc, Bool.false_eq_true, if_false, NSNode.Well.wellList, NSNode.Well, hdo, sp0, and_true,
           true_and]
         exact ⟨hitems, hsome,
-          spellKids_noAdj inScope _ ks (fun k hk' => allNodes_kid hn hk') hkinds.2.2 hord hnoadj, hkids⟩
+          spellKids_noAdj inScope _ ks (fun k hk' => allNodes_kid hn hk') hkinds.2.2 hord hnoadj, hkids,
+          StrSpan.bareColon_zero _, StrSpan.bareColon_zero _⟩
 
 /-- Lemma C, a child list. -/
 theorem spellKids_well (he : EnvFacts env) (inScope : List (Nat × Nat)) (ks : List Tree) (s : FStack)
